@@ -630,6 +630,9 @@ func (g *histGen) history(n, maxVal int, alphabet []int) []string {
 			if len(d) == 0 {
 				d = []byte{0}
 			}
+			if r.chance(1, 12) {
+				d = nil // a zero-length datagram: the decode fails and leaves Raw empty
+			}
 			fs = append(fs, withBytes([]int{10}, d))
 		}
 	}
@@ -664,6 +667,17 @@ var c03Alphabet = []int{1, 2, 3, 4, 4, 4, 5, 6, 7, 7, 7, 7, 7}
 
 func runC03(o *out, thorough bool, r *rng, _ []string) map[string]interface{} {
 	lookupCases(o, r, 600) // ForEach with a failing callback must leave struct and bytes in agreement
+	// very large values and totals: the 16-bit length fields at 2^15 and just below 2^16
+	for _, sizes := range [][]int{{32767}, {32768}, {40000}, {65528}, {65531}, {32768, 32740}, {65512 - 4}, {30000, 30000, 5500}, {65000, 520}} {
+		st := []string{"0", "-", "-"}
+		ops := []string{numsField(1, 1), numsField(1, 1, 0)}
+		for _, l := range sizes {
+			ops = append(ops, withBytes([]int{4, 0x8030}, r.bytes(l)))
+		}
+		ops = append(ops, "7,"+withBytes([]int{4, 3}, r.bytes(5)), numsField(3))
+		o.run(301, append(st, ops...), true)
+		o.count("huge-value-histories")
+	}
 	g := &histGen{r: r}
 	n := 2500
 	if thorough {
@@ -1081,6 +1095,33 @@ func runC09(o *out, thorough bool, r *rng, _ []string) map[string]interface{} {
 		}
 		o.run(301, append(st, ops...), true)
 		o.count("build-first-error-histories")
+	}
+	// text setters after ~32 KiB and ~60 KiB of preceding content: within the limits, so accepted
+	for _, pre := range []int{32768, 60000} {
+		for kind := 0; kind < 4; kind++ {
+			lim := 763
+			if kind == 0 {
+				lim = 513
+			}
+			fs := []string{"0", "-", "-", numsField(1, 1), numsField(1, 1, 0), withBytes([]int{4, 0x8030}, r.bytes(pre)),
+				"7," + withBytes([]int{4, kind}, r.bytes(lim)), "7," + withBytes([]int{4, kind}, r.bytes(r.intn(20)))}
+			o.run(301, fs, true)
+			o.count("setters-after-large-content")
+		}
+	}
+	// refusals on a Message that has no header yet (zero value, or reset): nothing may be written
+	for i := 0; i < 120; i++ {
+		refusing := []string{
+			withBytes([]int{5, 0x0020, 1}, r.bytes(r.pick([]int{0, 3, 5, 15, 17}))),
+			withBytes([]int{6, 0x0001, 1}, r.bytes(r.pick([]int{0, 3, 5, 15, 17}))),
+			withBytes([]int{4, 0}, r.bytes(514+r.intn(40))),
+			numsField(8, r.pick([]int{0, 299, 999})),
+			withBytes([]int{7, 400}, r.bytes(764+r.intn(9))),
+		}
+		st := [][]string{{"0", "-", "-"}, {"0", fHex(fill(r, 64, 1)), "-"}, {"20", fHex(make([]byte, 120)), "-", numsField(9)}}[i%3]
+		fs := append(append([]string{}, st...), "7,"+refusing[r.intn(len(refusing))], "7,"+refusing[r.intn(len(refusing))])
+		o.run(301, fs, true)
+		o.count("refusals-without-header")
 	}
 	// refusals must leave the message untouched also when it was decoded from a buffer with bytes after the
 	// declared length and already carries FINGERPRINT (not necessarily last)
